@@ -9,6 +9,7 @@ import (
 	"time"
 
 	"github.com/form3tech-oss/f1/v2/internal/metrics"
+	"github.com/form3tech-oss/f1/v2/internal/run"
 	f1testing "github.com/form3tech-oss/f1/v2/pkg/f1/testing"
 	"github.com/form3tech-oss/f1/v2/verifharness/core"
 	"github.com/form3tech-oss/f1/v2/verifharness/engine"
@@ -31,6 +32,10 @@ type c16Params struct {
 	Runs   []c16RunPlan      `json:"runs"`
 	Conc   int               `json:"conc"`
 	Desc   string            `json:"desc"`
+	// NoIterMetrics: the instance is built with iteration metrics disabled (setup metric only).
+	NoIterMetrics bool `json:"no_iter_metrics,omitempty"`
+	// PrepareAll: all runs of the case are constructed (NewRun) before the first one executes.
+	PrepareAll bool `json:"prepare_all,omitempty"`
 }
 
 var c16Keys = []string{"region", "Region", "zone", "az", "team", "Team", "env", "build_id", "a", "b", "A", "z9", "_x", "cluster", "Cluster", "k8s_ns"}
@@ -86,7 +91,9 @@ func init() {
 					}
 					p.Runs = append(p.Runs, rp)
 				}
-				p.Desc = fmt.Sprintf("labels=%d runs=%d same=%v", len(p.Labels), nr, same)
+				p.NoIterMetrics = i%6 == 5
+				p.PrepareAll = i%3 == 2
+				p.Desc = fmt.Sprintf("labels=%d runs=%d same=%v itermetrics=%v prepareAll=%v", len(p.Labels), nr, same, !p.NoIterMetrics, p.PrepareAll)
 				cse := core.MkCase("C16", "runs", i, seed, p)
 				cse.Race = true
 				cse.Procs = pick(r, 2, 16)
@@ -110,10 +117,21 @@ func c16Runs(c *core.Case, o *core.Outcome) {
 			anyCollide = true
 		}
 	}
+	var runCtx []context.Context
+	var runEnd []func()
+	var runStarted, runFailed []*atomic.Int64
+	var runLog []*engine.Log
+	type prepared struct {
+		r  *engine.Run
+		fr *run.Run
+	}
+	var pre []func() prepared
+	var preDone []prepared
 	for ri, rp := range p.Runs {
 		l := engine.NewLog()
 		ctx, cancel := context.WithCancel(context.Background())
-		var started, failedPlanned atomic.Int64
+		defer cancel()
+		started, failedPlanned := new(atomic.Int64), new(atomic.Int64)
 		gate := make(chan struct{})
 		var once sync.Once
 		open := func() { once.Do(func() { close(gate) }) }
@@ -151,14 +169,40 @@ func c16Runs(c *core.Case, o *core.Outcome) {
 		spec.Scenario = rp.Scenario
 		spec.Labels = p.Labels
 		spec.IgnoreDropped = true
-		r := engine.Execute(ctx, spec, l, scenario, hooks, inst)
-		open()
-		cancel()
+		spec.NoIterationMetrics = p.NoIterMetrics
+		_ = ri
+		pre = append(pre, func() prepared {
+			r, fr := engine.Prepare(spec, l, scenario, hooks, inst)
+			if r.NewErr == nil {
+				inst = r.Metrics
+			}
+			return prepared{r, fr}
+		})
+		runCtx = append(runCtx, ctx)
+		runEnd = append(runEnd, func() { open(); cancel() })
+		runStarted = append(runStarted, started)
+		runFailed = append(runFailed, failedPlanned)
+		runLog = append(runLog, l)
+	}
+	if p.PrepareAll {
+		for _, f := range pre {
+			preDone = append(preDone, f())
+		}
+	}
+	for ri, rp := range p.Runs {
+		var pr prepared
+		if p.PrepareAll {
+			pr = preDone[ri]
+		} else {
+			pr = pre[ri]()
+		}
+		started, failedPlanned, l := runStarted[ri], runFailed[ri], runLog[ri]
+		r := engine.Do(runCtx[ri], pr.r, pr.fr)
+		runEnd[ri]()
 		if r.NewErr != nil {
 			o.Inconc("harness: cannot build run: %v", r.NewErr)
 			return
 		}
-		inst = r.Metrics
 		desc := fmt.Sprintf("%s run %d/%d scenario=%q mode=%s setupFail=%v(%s) labels=%v", p.Desc, ri+1, len(p.Runs), rp.Scenario, rp.Mode, rp.SetupFail, engine.BehaviourNames[rp.SetupKind], p.Labels)
 		su, fa, dr := resultCounts(r)
 		if int64(su+fa) != started.Load() || int64(fa) != failedPlanned.Load() {
@@ -192,7 +236,12 @@ func c16Runs(c *core.Case, o *core.Outcome) {
 					got[s.Labels["result"]] += s.Count
 				}
 			}
-			if got["success"] != su || got["fail"] != fa || got["dropped"] != dr {
+			if p.NoIterMetrics {
+				if n := got["success"] + got["fail"] + got["dropped"]; n != 0 {
+					o.Violate("disabled:"+desc, "%s: iteration metrics are disabled on this instance but %d samples were exported (%s)", when, n, desc)
+					return false
+				}
+			} else if got["success"] != su || got["fail"] != fa || got["dropped"] != dr {
 				o.Violate("counts:"+desc, "%s: iteration metric holds success=%d fail=%d dropped=%d samples, the final result reports %d/%d/%d (%s)", when, got["success"], got["fail"], got["dropped"], su, fa, dr, desc)
 				return false
 			}
@@ -253,6 +302,6 @@ func c16Runs(c *core.Case, o *core.Outcome) {
 		ks = append(ks, k)
 	}
 	sort.Strings(ks)
-	o.Sig("labels=%d:collide=%v:runs=%d:names=%d:drops=%v", len(p.Labels), anyCollide, len(p.Runs), len(names), anyDrops)
+	o.Sig("labels=%d:collide=%v:runs=%d:names=%d:drops=%v:itermetrics=%v:prepareAll=%v", len(p.Labels), anyCollide, len(p.Runs), len(names), anyDrops, !p.NoIterMetrics, p.PrepareAll)
 	o.Sample = map[string]any{"labels": p.Labels, "runs": p.Runs}
 }
